@@ -954,7 +954,7 @@ impl CharRead for Stream {
             | Stream::Null(_)
             | Stream::Callback(_)
             | Stream::PipeWriter(_) => {}
-            Stream::InputChannel(_) => {}
+            Stream::InputChannel(cursor) => cursor.put_back_char(c),
         }
     }
 
